@@ -53,6 +53,10 @@ fn run(input: RunInput) -> ScenFuture {
         let svc_b = Svc::echo(&w);
         let hb = svc_b.handle();
         let b = w.start_node(w.spec(2, cfg_b), svc_b).unwrap();
+        // what either side has in its known-peer table about the other (High or Allowed, with or
+        // without address) has no say in which connection survives
+        w.vary_known_peers(&a, &[(b.peer_id, Some(b.addr))], true);
+        w.vary_known_peers(&b, &[(a.peer_id, Some(a.addr))], true);
         let mut sa = Subscription::new(&a.net).unwrap();
         let mut sb = Subscription::new(&b.net).unwrap();
         // events of both sides enter the order signature in the order they are published
